@@ -276,13 +276,13 @@ Section ModuleRename.
          | StFromPkg x => [IFrom 0 p [(nb, x)]]
          | StFromMod g k => [IFrom 0 (p ++ [nb]) [(g, k)]]
          | StStar => [IFrom 0 (p ++ [nb]) [(STAR, None)]]
-         | StRelPkg => [IFrom 1 [] [(nb, None)]]
+         | StRelPkg x => [IFrom 1 [] [(nb, x)]]
          | StRelMod g k => [IFrom 1 [nb] [(g, k)]]
          end;
        m_refs :=
          match st with
          | StImport => map (fun r => (p ++ [nb]) ++ skipn (S (length p)) r) refs
-         | StFromPkg None | StRelPkg => map (fun r => [nb] ++ skipn 1 r) refs
+         | StFromPkg None | StRelPkg None => map (fun r => [nb] ++ skipn 1 r) refs
          | _ => refs
          end |}.
 
@@ -413,11 +413,11 @@ Section ModuleRename.
   Lemma ren_rel_pkg name refs :
     p <> [] ->
     (forall r, In r refs -> exists rest, r = [b] ++ rest) ->
-    rename_module_text w src nb (client_of p b p name StRelPkg refs) = renamed p name StRelPkg refs.
+    rename_module_text w src nb (client_of p b p name (StRelPkg None) refs) = renamed p name (StRelPkg None) refs.
   Proof.
     intros Hp Hrefs. unfold rename_module_text, renamed. cbn [client_of m_folder m_name m_imports m_refs style_imports].
     set (m := {| m_folder := p; m_name := name; m_imports := [IFrom 1 [] [(b, None)]]; m_refs := refs |}).
-    change (client_of p b p name StRelPkg refs) with m.
+    change (client_of p b p name (StRelPkg None) refs) with m.
     assert (Henv : env_of true w p [IFrom 1 [] [(b, None)]] = [(b, Some (OMod src))]).
     { unfold env_of. cbn [flat_map bind_stmt bind_from app from_module]. fold l.
       unfold find_relative_module. cbn [pred up]. rewrite R_bS. rewrite r_attr_p_b by auto. reflexivity. }
@@ -583,7 +583,7 @@ Section ModuleRename.
                      (rename_module_text w src nb (client_of p b F name st refs)).
   Proof.
     intros Hst Hrefs. rewrite forallb_forall in Hrefs. unfold rename_style_side in Hst.
-    destruct st as [|x|xo|g k| | |g k].
+    destruct st as [|x|xo|g k| |xr|g k].
     - (* import p.b *)
       rewrite ren_import.
       2:{ intros r Hr. destruct (r_ref_ok_base StImport _ r eq_refl (Hrefs r Hr)) as [->|[g [_ ->]]].
@@ -664,10 +664,11 @@ Section ModuleRename.
       + unfold env_of. cbn [renamed m_folder m_imports flat_map bind_stmt bind_from app from_module abs_import].
         fold l'. rewrite r_find_new, N.eqb_refl, !app_nil_r. rewrite r_globals_new. reflexivity.
     - (* from . import b *)
-      apply andb_true_iff in Hst as [HF Hp0]. apply path_eqb_eq in HF. subst F.
+      apply andb_true_iff in Hst as [Hst Hx]. apply andb_true_iff in Hst as [HF Hp0].
+      apply path_eqb_eq in HF. subst F. destruct xr as [xa|]; [discriminate|].
       assert (Hp : p <> []) by (destruct p; [discriminate|discriminate]).
       assert (Hshape : forall r, In r refs -> r = [b] \/ exists g, In g (globals_of w src) /\ r = [b] ++ [g]).
-      { intros r Hr. apply (r_ref_ok_base StRelPkg [b] r eq_refl (Hrefs r Hr)). }
+      { intros r Hr. apply (r_ref_ok_base (StRelPkg None) [b] r eq_refl (Hrefs r Hr)). }
       rewrite ren_rel_pkg; auto.
       2:{ intros r Hr. destruct (Hshape r Hr) as [->|[g [_ ->]]]; [exists []; reflexivity|exists [g]; reflexivity]. }
       apply r_refs_preserved_map with (f := fun r => [nb] ++ skipn 1 r); [reflexivity|].
